@@ -103,7 +103,7 @@ def one_round(rng, nthreads, nreq):
     for e in engines:
         leaf = e.make_leaf({a}, iteration.RowSequence([]) if isinstance(e, iteration.Engine) else object(), name=f"base_{id(e)}")
         bases.append(leaf.without_duplicates())
-    prefixes = ["leaf", "materialization", "tmp", "x_1", ""]
+    prefixes = ["leaf", "materialization", "tmp", "x_1", "", "p" * 58, "long_prefix_" * 6, "q" * 70]
     plans = []
     for t in range(nthreads):
         r = random.Random(rng.random())
